@@ -331,7 +331,19 @@ func logsloglevel2Level(level logslog.Level) Level {
 	case LevelPanic:
 		return PanicLevel
 	}
-	return FatalLevel
+	// any other value: the nearest known level below it - never a
+	// terminating severity, which only the explicit constants select
+	switch {
+	case level < logslog.LevelDebug:
+		return TraceLevel
+	case level < logslog.LevelInfo:
+		return DebugLevel
+	case level < logslog.LevelWarn:
+		return InfoLevel
+	case level < logslog.LevelError:
+		return WarnLevel
+	}
+	return ErrorLevel
 }
 
 // mLevelIsEnabledAs is a replacement table of two levels.
